@@ -276,6 +276,15 @@ class Folder:
 
     def ret_expr(self, fi: FuncInfo, binds: dict[str, ast.AST] | None = None,
                  closure: dict[str, ast.AST] | None = None, depth: int = 0) -> ast.AST:
+        if depth > 0:
+            # only helpers that merely *compute a value* are read through: bindings, branches, returns
+            for s in fi.node.body:
+                for n in walk_no_nested(s):
+                    if isinstance(n, (ast.For, ast.AsyncFor, ast.While, ast.Try, ast.With, ast.AsyncWith, ast.Delete, ast.AugAssign)) \
+                            or (isinstance(n, ast.Assign) and any(not isinstance(t, ast.Name) for t in n.targets)) \
+                            or (isinstance(n, ast.Expr) and not (isinstance(n.value, ast.Constant) or (
+                                isinstance(n.value, ast.Call) and txt(n.value.func).split(".")[0] in ("_logger", "logging", "_log")))):
+                        raise AnalysisError(f"{fi.qual} is not a pure value helper")
         node = freshen(copy.deepcopy(fi.node))
         if isinstance(node, ast.AsyncFunctionDef):
             raise AnalysisError(f"cannot fold async function {fi.qual}")
